@@ -558,6 +558,9 @@ def store_subscript(I, obj, idx, val):
             return
         if is_sym_int(idx):
             return ext().sym_store_list(I, obj, idx, val)
+        if isinstance(idx, (tuple, str, bytes, float, type(None))):
+            e = TypeError("list indices must be integers or slices, not %s" % type(idx).__name__)
+            raise PyRaise(e, TypeError)
     if isinstance(obj, SObj):
         f = I.class_attr(obj.cls, "__setitem__")
         if f is not None:
